@@ -218,7 +218,7 @@ def run(chk):
                 raise AnalysisError("unresolved call inside the C10 cone of %s: %s" % (lab, unexpected[:3]))
     progress_rule(chk, world("py3"))
     chk.floor("R10.1", "decoder entry points analysed", len(results), 27 * len(chk.configs))
-    chk.floor("R10.1", "functions in the union of the cones", len(funcs), 40)
+    chk.floor("R10.1", "functions in the union of the cones", len(funcs), 30)
     chk.internal = sorted(internal)
     chk.extra["functions_analysed"] = sorted(funcs)
     chk.extra["primitive_obligations"] = {"total": tot_obl, "discharged": tot_dis}
